@@ -89,6 +89,9 @@ type conn struct {
 	// writeGate, when non-nil, makes Write block until the gate is closed: the
 	// peer has stopped reading and the TCP buffers are full
 	writeGate chan struct{}
+	// wDeadline is what SetWriteDeadline / SetDeadline last set (virtual clock);
+	// a Write still blocked at that instant fails with a timeout, as on a socket
+	wDeadline time.Time
 }
 
 func (c *conn) Read(p []byte) (int, error) {
@@ -119,7 +122,20 @@ func (c *conn) Write(p []byte) (int, error) {
 		return 0, errClosed
 	}
 	if c.writeGate != nil {
-		mcrt.Recv2(c.writeGate)
+		if c.wDeadline.IsZero() {
+			mcrt.Recv2(c.writeGate)
+		} else {
+			d := c.wDeadline.Sub(mcrt.Now())
+			if d < 0 {
+				d = 0
+			}
+			sl := &mcrt.Sel{}
+			mcrt.SelRecv(sl, c.writeGate)
+			mcrt.SelRecv(sl, mcrt.After(d))
+			if sl.Do() == 1 {
+				return 0, os.ErrDeadlineExceeded
+			}
+		}
 	}
 	n, err := c.out.Write(p)
 	if c.onWrite != nil {
@@ -143,9 +159,9 @@ func (a addr) String() string  { return string(a) }
 
 func (c *conn) LocalAddr() net.Addr                { return addr(c.name) }
 func (c *conn) RemoteAddr() net.Addr               { return addr(c.name + "-peer") }
-func (c *conn) SetDeadline(t time.Time) error      { return nil }
+func (c *conn) SetDeadline(t time.Time) error      { c.wDeadline = t; return nil }
 func (c *conn) SetReadDeadline(t time.Time) error  { return nil }
-func (c *conn) SetWriteDeadline(t time.Time) error { return nil }
+func (c *conn) SetWriteDeadline(t time.Time) error { c.wDeadline = t; return nil }
 
 type obsT struct {
 	toServer, toClient *hsink.Sink
@@ -380,72 +396,74 @@ func scenarios(tier string) []*mcrt.Scenario {
 	// direction still has traffic: that direction must not be held up.  The gate is
 	// opened by a thread that runs only when nothing else can, and at that moment
 	// the traffic of the free direction must already have been relayed.
-	for _, blocked := range []string{"client-not-reading", "server-not-reading"} {
-		blocked := blocked
-		cdata := append(append([]byte{}, f...), []byte("GET /x\r\n")...)
-		sdata := []byte("ICY 200 OK\r\n")
-		scs = append(scs, &mcrt.Scenario{
-			Name: "stalled-peer " + blocked, Bound: 1, Horizon: 50000, Prune: true,
-			Body: func(x *mcrt.X) {
-				obs := &obsT{toServer: &hsink.Sink{Name: "upstream"}, toClient: &hsink.Sink{Name: "client"}}
-				x.Data = obs
-				byteChan = make(chan byte)
-				messageChan = make(chan rtcm.Message)
-				rtcmHandler = rtcm.New(t0, slog.LevelInfo)
-				mcrt.Go("HandleMessages", func() { rtcmHandler.HandleMessages(byteChan, messageChan) })
-				recentMessages = circularQueue.NewCircularQueue(maxNumberOfMessagesStored)
-				mcrt.Go("keepCircularQueueUpdated", func() { keepCircularQueueUpdated(messageChan, recentMessages) })
-				rtcmLog = realLog
-				SetReportFeed(reportfeed.New(rtcmLog, recentMessages))
-				gate := make(chan struct{})
-				serverDone := make(chan struct{})
-				doneClosed := false
-				cl := &conn{name: "client", rd: &hsink.ChunkReader{Data: cdata, Sizes: []int{0, 3}}, out: obs.toClient, closedCh: make(chan struct{}), eofAfter: serverDone}
-				sv := &conn{name: "server", rd: &hsink.ChunkReader{Data: sdata, Sizes: []int{0, 2}}, out: obs.toServer, closedCh: make(chan struct{}), blockAtEnd: true}
-				if blocked == "client-not-reading" {
-					cl.writeGate = gate
-				} else {
-					sv.writeGate = gate
-				}
-				cl.onWrite = func() {
-					if !doneClosed && obs.toClient.Len() >= len(sdata) {
-						doneClosed = true
-						mcrt.Close(serverDone)
+	for _, stall := range []time.Duration{time.Second, 10 * time.Minute} {
+		for _, blocked := range []string{"client-not-reading", "server-not-reading"} {
+			blocked, stall := blocked, stall
+			cdata := append(append([]byte{}, f...), []byte("GET /x\r\n")...)
+			sdata := []byte("ICY 200 OK\r\n")
+			scs = append(scs, &mcrt.Scenario{
+				Name: fmt.Sprintf("stalled-peer %s for %v", blocked, stall), Bound: 1, Horizon: 50000, Prune: true,
+				Body: func(x *mcrt.X) {
+					obs := &obsT{toServer: &hsink.Sink{Name: "upstream"}, toClient: &hsink.Sink{Name: "client"}}
+					x.Data = obs
+					byteChan = make(chan byte)
+					messageChan = make(chan rtcm.Message)
+					rtcmHandler = rtcm.New(t0, slog.LevelInfo)
+					mcrt.Go("HandleMessages", func() { rtcmHandler.HandleMessages(byteChan, messageChan) })
+					recentMessages = circularQueue.NewCircularQueue(maxNumberOfMessagesStored)
+					mcrt.Go("keepCircularQueueUpdated", func() { keepCircularQueueUpdated(messageChan, recentMessages) })
+					rtcmLog = realLog
+					SetReportFeed(reportfeed.New(rtcmLog, recentMessages))
+					gate := make(chan struct{})
+					serverDone := make(chan struct{})
+					doneClosed := false
+					cl := &conn{name: "client", rd: &hsink.ChunkReader{Data: cdata, Sizes: []int{0, 3}}, out: obs.toClient, closedCh: make(chan struct{}), eofAfter: serverDone}
+					sv := &conn{name: "server", rd: &hsink.ChunkReader{Data: sdata, Sizes: []int{0, 2}}, out: obs.toServer, closedCh: make(chan struct{}), blockAtEnd: true}
+					if blocked == "client-not-reading" {
+						cl.writeGate = gate
+					} else {
+						sv.writeGate = gate
 					}
-				}
-				mcrt.GoLow("peer-resumes-reading", func() {
-					mcrt.Sleep(time.Second)
-					// nothing else could run: what has the free direction delivered?
-					obs.upAtStall, obs.downAtStall = obs.toServer.Len(), obs.toClient.Len()
-					mcrt.Note(uint64(obs.upAtStall)<<16 | uint64(obs.downAtStall))
-					obs.stallSeen = true
-					mcrt.Close(gate)
-				})
-				handleMessages(sv, cl, false, 1)
-				obs.returned = true
-			},
-			Check: func(x *mcrt.X) *mcrt.Failure {
-				obs := x.Data.(*obsT)
-				if len(x.Panics) > 0 {
-					p := x.Panics[0]
-					return &mcrt.Failure{Kind: "panic in " + p.Thread + ": " + first(p.Value) + " @" + p.Site, Detail: p.Stack}
-				}
-				if !bytes.Equal(obs.toServer.Buf, cdata) || !bytes.Equal(obs.toClient.Buf, sdata) {
-					return &mcrt.Failure{Kind: "upstream-did-not-receive-exactly-the-client-bytes", Detail: fmt.Sprintf("stalled peer: upstream %d/%d, client %d/%d; end=%s blocked=%v", len(obs.toServer.Buf), len(cdata), len(obs.toClient.Buf), len(sdata), x.End, x.Blocked)}
-				}
-				// only the default placement of the gate opener (as late as possible) is judged
-				if obs.stallSeen && len(x.Choices) > 0 && allZero(x.Choices) {
-					if blocked == "client-not-reading" && obs.upAtStall != len(cdata) {
-						return &mcrt.Failure{Kind: "relay-withheld-while-the-other-peer-is-not-reading", Detail: fmt.Sprintf("client stopped reading: upstream had only %d of %d client bytes when nothing else could run", obs.upAtStall, len(cdata))}
+					cl.onWrite = func() {
+						if !doneClosed && obs.toClient.Len() >= len(sdata) {
+							doneClosed = true
+							mcrt.Close(serverDone)
+						}
 					}
-					if blocked == "server-not-reading" && obs.downAtStall != len(sdata) {
-						return &mcrt.Failure{Kind: "relay-withheld-while-the-other-peer-is-not-reading", Detail: fmt.Sprintf("server stopped reading: the client had only %d of %d server bytes when nothing else could run", obs.downAtStall, len(sdata))}
+					mcrt.GoLow("peer-resumes-reading", func() {
+						mcrt.Sleep(stall)
+						// nothing else could run: what has the free direction delivered?
+						obs.upAtStall, obs.downAtStall = obs.toServer.Len(), obs.toClient.Len()
+						mcrt.Note(uint64(obs.upAtStall)<<16 | uint64(obs.downAtStall))
+						obs.stallSeen = true
+						mcrt.Close(gate)
+					})
+					handleMessages(sv, cl, false, 1)
+					obs.returned = true
+				},
+				Check: func(x *mcrt.X) *mcrt.Failure {
+					obs := x.Data.(*obsT)
+					if len(x.Panics) > 0 {
+						p := x.Panics[0]
+						return &mcrt.Failure{Kind: "panic in " + p.Thread + ": " + first(p.Value) + " @" + p.Site, Detail: p.Stack}
 					}
-				}
-				harness.Outcome("stalled peer " + blocked)
-				return nil
-			},
-		})
+					if !bytes.Equal(obs.toServer.Buf, cdata) || !bytes.Equal(obs.toClient.Buf, sdata) {
+						return &mcrt.Failure{Kind: "upstream-did-not-receive-exactly-the-client-bytes", Detail: fmt.Sprintf("stalled peer: upstream %d/%d, client %d/%d; end=%s blocked=%v", len(obs.toServer.Buf), len(cdata), len(obs.toClient.Buf), len(sdata), x.End, x.Blocked)}
+					}
+					// only the default placement of the gate opener (as late as possible) is judged
+					if obs.stallSeen && len(x.Choices) > 0 && allZero(x.Choices) {
+						if blocked == "client-not-reading" && obs.upAtStall != len(cdata) {
+							return &mcrt.Failure{Kind: "relay-withheld-while-the-other-peer-is-not-reading", Detail: fmt.Sprintf("client stopped reading: upstream had only %d of %d client bytes when nothing else could run", obs.upAtStall, len(cdata))}
+						}
+						if blocked == "server-not-reading" && obs.downAtStall != len(sdata) {
+							return &mcrt.Failure{Kind: "relay-withheld-while-the-other-peer-is-not-reading", Detail: fmt.Sprintf("server stopped reading: the client had only %d of %d server bytes when nothing else could run", obs.downAtStall, len(sdata))}
+						}
+					}
+					harness.Outcome("stalled peer " + blocked)
+					return nil
+				},
+			})
+		}
 	}
 	// the proxy serves one call after another (and several at once) with the same
 	// handler, queue and report feed: a later session must be relayed exactly like
